@@ -86,8 +86,8 @@ def project_tree(t):
     if type(t).__name__ == 'CellRef':
         return ['R', int(t.cell)]
     if isinstance(t, (tuple, list)):
-        if t[0] == '^':
-            return ['^', int(t[1])]
+        if t[0] in ('^', '@'):
+            return [t[0], int(t[1])]
         if t[0] in ('*', ':'):
             return [t[0]] + [project_tree(x) for x in t[1:]]
     raise TypeError('cannot project %r' % (t,))
@@ -134,7 +134,26 @@ def run_one(job):
     return rec
 
 
+def replay_case(chk, case):
+    import shutil
+    env_trees = [[10, ['*', ['S', -1, 0], ['S', 2, 0]]], [11, [':', ['C', 10], ['S', 3, 1]]]]
+    env_text = [(n, render_env_text(t)) for n, t in env_trees]
+    rec = run_one((1, case['text'], env_text))
+    trace = {'tid': 1, 'env': [{'n': n, 'geom': t} for n, t in env_trees], 'tree': case['tree'],
+             'ast': rec['ast'], 'post': rec['post'], 'result': rec['result']}
+    sd = tlc.scratch_dir('c11r')
+    core.write_blocks(sd, [trace])
+    val = tlc.run('TraceExpr', 'INIT Init\nNEXT Next\nCHECK_DEADLOCK FALSE\n', env={'TRACE_DIR': sd}, workers=4)
+    shutil.rmtree(sd, ignore_errors=True)
+    bad = [b['bad'] for b in core.collect_blocks(val) if b['bad']]
+    print('text:', case['text'], '\nparsed:', rec['ast'], '\ncomplement-free:', rec['post'], '\nerror:', rec['err'])
+    print('verdict from TraceExpr.tla:', bad or 'ok')
+    return bool(bad)
+
+
 def main():
+    from .. import replay
+    replay.maybe_replay('C11')
     chk = core.Check('C11')
     rng = random.Random(chk.seed)
     thorough = chk.tier == 'thorough'
@@ -202,11 +221,10 @@ def main():
         if rec['err']:
             errs[rec['tid']] = rec['err']
     sd = tlc.scratch_dir('c11')
-    tf = sd + '/traces.json'
-    core.write_json(tf, traces)
+    core.write_blocks(sd, traces)
     try:
         val = tlc.run('TraceExpr', 'INIT Init\nNEXT Next\nCHECK_DEADLOCK FALSE\n',
-                      env={'TRACE_FILE': tf}, workers=16, timeout=1500)
+                      env={'TRACE_DIR': sd}, workers=16, timeout=1500)
     except tlc.TLCFailure as exc:
         chk.machinery(str(exc))
         return chk.finish()
@@ -234,7 +252,7 @@ def main():
             err = errs.get(tid_)
             sig = {'clause': verdict, 'errtype': err['type'] if err else None,
                    'where': err['where'] if err else None, 'features': '+'.join(features(m['toks']))}
-            chk.violation(sig, {'text': m['text'], 'style': m['style'], 'tree': m['tree'],
+            chk.violation(sig, {'text': m['text'], 'style': m['style'], 'tree': m['tree'], 'toks': m['toks'],
                                 'error': err, 'env': env_text})
     for t in traces[:2] + traces[len(traces) // 2:len(traces) // 2 + 1]:
         chk.sample({'text': meta[t['tid']]['text'], 'tree': t['tree'], 'post': t['post']})
